@@ -736,7 +736,17 @@ func reifyPrimitive(
 	// zero initialize value if val==nil
 	if isNil(val) {
 		v := pointerize(t, baseType, reflect.Zero(baseType))
-		return tryInitDefaults(v), nil
+		v = tryInitDefaults(v)
+		if hasInitDefaults(baseType) && val != nil {
+			// the value InitDefaults provided stays: it has to be valid
+			if err := runValidators(v.Interface(), opts.validators); err != nil {
+				return reflect.Value{}, raiseValidation(val.Context(), val.meta(), "", err)
+			}
+			if err := tryValidate(v); err != nil {
+				return reflect.Value{}, raiseValidation(val.Context(), val.meta(), "", err)
+			}
+		}
+		return v, nil
 	}
 
 	var v reflect.Value
